@@ -314,6 +314,7 @@ def formulas(ctx, mod):
             sub = [x for x in s.body if isinstance(x, ast.Break)] or [x for x in statements(ast.Module(body=s.body, type_ignores=[])) if isinstance(x, ast.Break)]
             if sub and isinstance(mod.parents.get(s), ast.For):
                 tests['tail' if ('texp', True) in cn else 'standard'] = s
+    fallback_lims = {}
     for branch, want in (('standard', gref), ('tail', Frho(W) - NSIG * Fdrho(W))):
         key = 'obs.py:Obs.gamma_method#window-criterion[%s]' % branch
         s = tests.get(branch)
@@ -346,14 +347,38 @@ def formulas(ctx, mod):
             second = t.values[1]
             try:
                 hi = g.T(loop.iter.args[1])
-                if isinstance(second, ast.Compare) and isinstance(second.ops[0], ast.GtE):
-                    lim = g.T(second.comparators[0])
+                if isinstance(second, ast.Compare) and isinstance(second.ops[0], (ast.GtE, ast.Gt, ast.Eq)):
+                    lim = g.T(second.comparators[0]) + (1 if isinstance(second.ops[0], ast.Gt) else 0)
                     # the loop must reach `lim` before it ends: lim <= hi - 1
                     ok = sp.simplify(hi - 1 - lim) in (0, 1) or sp.simplify(hi - 1 - lim).is_nonnegative
                     ctx.check(rule2, key + '-fallback', bool(ok), 'fallback lag %s is reached by the loop (last W = %s)' % (lim, hi - 1),
                               'fallback lag %s is never reached by range(1, %s): the window would stay undefined' % (lim, hi), mod.loc(s))
+                    fallback_lims[branch] = lim
             except Unrecognised as e:
                 ctx.unrec(rule2, key + '-fallback', str(e))
+    # definitional constants: the largest admissible lag is w_max - 1 for the standard search and w_max // 2 - 2 for the search
+    # with exponential tail (it needs rho and drho one lag further and only half of the lags are used); compared as values, not text
+    for branch in ('standard', 'tail'):
+        key = 'obs.py:Obs.gamma_method#largest-admissible-lag[%s]' % branch
+        if branch not in fallback_lims:
+            ctx.unrec(rule2, key, 'fallback disjunct  n >= <lag>  not found')
+            continue
+        try:
+            wm = g.T(ast.parse('w_max', mode='eval').body)
+        except Unrecognised as e:
+            ctx.unrec(rule2, key, str(e))
+            continue
+        want_lim = wm - 1 if branch == 'standard' else sp.floor(wm / 2) - 2
+        d_ = sp.simplify(fallback_lims[branch] - want_lim)
+        if d_ != 0:
+            # exact evaluation on a grid of w_max values decides floor expressions that simplify() leaves alone
+            syms = sorted(d_.free_symbols, key=str)
+            vals = set()
+            if len(syms) == 1:
+                vals = {sp.simplify(d_.subs(syms[0], k)) for k in range(8, 80)}
+            d_ = 0 if vals == {0} else d_
+        ctx.check(rule2, key, d_ == 0, 'search stops at the latest at lag %s' % want_lim,
+                  'the search falls back at lag %s, the largest admissible lag of this branch is %s' % (fallback_lims[branch], want_lim), mod.loc(tests[branch]))
     # drho is computed before it is used (tail branch)
     key = 'obs.py:Obs.gamma_method#drho-before-use[tail]'
     s = tests.get('tail')
@@ -457,7 +482,15 @@ def formulas(ctx, mod):
         ok = isinstance(base, ast.Name)
         clamp = [s for s in g.sts if ok and isinstance(s, ast.Assign) and isinstance(s.targets[0], ast.Subscript) and unparse(s.targets[0].value) == base.id
                  and isinstance(s.targets[0].slice, ast.Compare)]
-        okc = len(clamp) == 1 and unparse(clamp[0].targets[0].slice) == '%s < 1' % base.id and const(clamp[0].value) == 1.0 and clamp[0].lineno < divs[0].lineno
+        def _mask_ok(m):
+            # counts are non-negative integers (up to FFT round-off): 'no pair' <=> count < c for any threshold 0 < c <= 1
+            if not (isinstance(m, ast.Compare) and len(m.ops) == 1 and unparse(m.left) == base.id):
+                return False
+            c_ = const(m.comparators[0])
+            if not isinstance(c_, (int, float)):
+                return False
+            return (isinstance(m.ops[0], ast.Lt) and 0 < c_ <= 1) or (isinstance(m.ops[0], ast.LtE) and 0 < c_ < 1)
+        okc = len(clamp) == 1 and _mask_ok(clamp[0].targets[0].slice) and const(clamp[0].value) == 1.0 and clamp[0].lineno < divs[0].lineno
         if okc:
             # the clamp acts on the complete pair count: same block as the division, after the loop that accumulates the counts
             blk = mod.parents.get(divs[0])
@@ -799,6 +832,10 @@ def run(ctx):
 
 _STD = "self.e_tauint[e_name] = self.e_n_tauint[e_name][n] * (1 + (2 * n + 1) / e_N) / (1 + 1 / e_N)  # Bias correction"
 SELFTEST = [
+    ('benign-pair-count-half', 'pyerrors/obs.py', "gamma_div[gamma_div < 1] = 1.0", "gamma_div[gamma_div < 0.5] = 1.0", 'BENIGN'),
+    ('tail-fallback-lag', 'pyerrors/obs.py', "or n >= w_max // 2 - 2:", "or n >= w_max // 2 - 1:", 'C02-D2'),
+    ('benign-tail-fallback-gt', 'pyerrors/obs.py', "or n >= w_max // 2 - 2:", "or n > w_max // 2 - 3:", 'BENIGN'),
+    ('std-fallback-lag', 'pyerrors/obs.py', "or n >= w_max - 1:", "or n >= w_max - 2:", 'C02-D2'),
     ('bias-2n', 'pyerrors/obs.py', _STD, _STD.replace('(2 * n + 1)', '(2 * n)'), 'C02-D1'),
     ('bias-denominator', 'pyerrors/obs.py', _STD, _STD.replace('/ (1 + 1 / e_N)', ''), 'C02-D1'),
     ('naive-error-N', 'pyerrors/obs.py', "np.sqrt(e_gamma[e_name][0] / (e_N - 1))", "np.sqrt(e_gamma[e_name][0] / e_N)", 'C02-D1'),
